@@ -126,6 +126,15 @@ var pow10u = func() []uint64 {
 // decimalOf returns the canonical decimal digits (ASCII byte terms) of the
 // unsigned 64-bit value x.
 func (ex *Exec) decimalOf(x *sym.Term) []*sym.Term {
+	if d, ok := ex.decMemo[x.ID]; ok {
+		return d // the canonical decimal of a value is unique: same digits every time
+	}
+	d := ex.decimalOf0(x)
+	ex.decMemo[x.ID] = d
+	return d
+}
+
+func (ex *Exec) decimalOf0(x *sym.Term) []*sym.Term {
 	c := ex.c
 	if x.IsConst() {
 		s := strconv.FormatUint(x.Val, 10)
